@@ -385,8 +385,8 @@ def _lbl(case, r):
     return case if isinstance(case, str) else case[r]
 
 
-def _check_extrema_fold(cur, hist, rows, cols, with_x, with_casenum, j):
-    where = f"cla.extrema[{cols}col]"
+def _check_extrema_fold(cur, hist, rows, cols, with_x, with_casenum, j, where=None):
+    where = where or f"cla.extrema[{cols}col]"
     if cur.ext is None or np.shape(cur.ext) != (rows, 2):
         raise Violation("extrema_shape", where, got=str(np.shape(cur.ext)))
     for r in range(rows):
@@ -433,6 +433,90 @@ def _check_extrema_fold(cur, hist, rows, cols, with_x, with_casenum, j):
                 _need(_close(cur.mx_x[:, jj], h[1][:, 0], 0.0, 1.0), "extrema_percase", where + ".mx_x", case=jj)
                 _need(_close(cur.mn_x[:, jj], h[1][:, -1], 0.0, 1.0), "extrema_percase", where + ".mn_x", case=jj)
 
+
+
+# ------------------------------------------------ scenario: external max/min
+
+
+def scenario_external(ch, tr, st):
+    """Results computed elsewhere (DR_Results.add_maxmin, one or two columns)
+    enveloped over events with form_extreme - the public path to the
+    one-column branch of cla.extrema."""
+    M = modules()
+    cla = M.cla
+    rows = 1 + ch.draw(3, "rows")
+    cols = 1 + ch.draw(2, "cols")
+    nev = 1 + ch.draw(5, "nevents")
+    with_x = ch.flip(1, 2, "with_x")
+    list_labels = ch.flip(1, 3, "list_labels")
+    nan_ok = ch.flip(1, 4, "nan_on")
+    doappend = [2, 0, 1, 3][ch.draw(4, "doappend")]
+    use_merge = ch.flip(1, 2, "use_merge")
+    ncat = 1 + ch.draw(2, "ncat")
+    drdefs = cla.DR_Def({"se": 0})
+    for c in range(ncat):
+        drdefs.add(name=f"ext{c}", labels=[f"ext{c} r{i}" for i in range(rows)], drfunc="no-func")
+    DR = cla.DR_Event()
+    DR.add(None, drdefs)
+    st.rendered.update(scenario="external_maxmin", rows=rows, cols=cols, nevents=nev, with_x=with_x, list_labels=list_labels, doappend=doappend, ncat=ncat)
+    tr.shape("external", rows, cols, nev, with_x, list_labels, doappend, ncat, use_merge)
+    st.fault("external_maxmin")
+    if cols == 1:
+        st.fault("one_column_ext")
+    ops = []
+    st.rendered["ops"] = ops
+    tree = cla.DR_Results()
+    hist = {f"ext{c}": [] for c in range(ncat)}
+    results = []
+    for e in range(nev):
+        name = f"E{e}"
+        with _Sut("DR_Event.prepare_results"):
+            res = DR.prepare_results("mission", name)
+        for c in range(ncat):
+            cat = f"ext{c}"
+            vals = np.array([[float(ch.draw(11, "val") - 5) for _ in range(cols)] for _ in range(rows)])
+            if cols == 2:
+                vals = np.column_stack((vals.max(axis=1), vals.min(axis=1)))
+            if nan_ok:
+                for r in range(rows):
+                    if ch.flip(1, 6, "nan"):
+                        vals[r, :] = np.nan
+                        st.fault("nan_cells")
+            xs = None
+            if with_x:
+                xs = np.array([[float(10 * e + k + 100 * r) for k in range(cols)] for r in range(rows)])
+            if list_labels:
+                maxcase = [f"E{e}r{r}" for r in range(rows)]
+                mincase = [f"E{e}r{r}m" for r in range(rows)] if cols == 2 and ch.flip(1, 2, "mincase_given") else None
+            else:
+                maxcase = f"E{e}case"
+                mincase = f"E{e}casem" if cols == 2 and ch.flip(1, 3, "mincase_given") else None
+            with _Sut("DR_Results.add_maxmin"):
+                res.add_maxmin(cat, vals.copy(), maxcase, mincase, None if xs is None else xs.copy(), domain="time" if with_x else None)
+            low_max = [_lbl(maxcase, r) for r in range(rows)]
+            low_min = [_lbl(mincase if mincase is not None else maxcase, r) for r in range(rows)]
+            lab = {0: lambda l: name, 2: lambda l: name, 1: lambda l: f"{name},{l}", 3: lambda l: l}[doappend]
+            hist[cat].append((vals, xs, [lab(l) for l in low_max], [lab(l) for l in low_min]))
+            ops.append({"event": name, "cat": cat, "ext": vals.tolist()})
+        results.append(res)
+        if not use_merge:
+            tree[name] = res
+    if use_merge:
+        with _Sut("DR_Results.merge"):
+            tree.merge(results)
+    nform = 1 + ch.draw(2, "nform")
+    for _ in range(nform):  # a second call must rebuild, not accumulate
+        with _Sut("DR_Results.form_extreme"):
+            tree.form_extreme(doappend=doappend)
+    for cat, h in hist.items():
+        x = tree["extreme"][cat]
+        if list(x.cases) != [f"E{e}" for e in range(nev)]:
+            raise Violation("envelope_cases_wrong", f"form_extreme[external]:{cat}.cases", got=list(x.cases))
+        _check_extrema_fold(x, h, rows, cols, with_x, True, nev - 1, where=f"form_extreme[external,{cols}col]")
+        tr.ev("ext", cat, x.ext)
+    st.steps = nev * ncat + nform
+    st.nontrivial = nev >= 2
+    st.distinct["histories"] = tr.shape_digest() + str([[h_[0].tolist() for h_ in v] for v in hist.values()])
 
 # -------------------------------------------------------- scenario: campaign
 
@@ -561,7 +645,7 @@ def scenario_campaign(ch, tr, st):
     rng = ch.data_rng()
     mod = draw_modal(ch, rng)
     nev = 1 + ch.weighted([2, 3, 3, 2], "nevents")
-    domain_mix = ch.weighted([5, 3, 3], "domain_mix")  # all time / all frf / mixed(time,frf)
+    domain_mix = ch.weighted([5, 3, 3, 3], "domain_mix")  # all time / all frf / mixed / all psd
     two_cfg = ch.flip(1, 3, "label_mismatch_cfg")
     faults_on = ch.flip(3, 4, "faults_on")
     nan_on = faults_on and ch.flip(1, 2, "nan_on")
@@ -618,7 +702,7 @@ def scenario_campaign(ch, tr, st):
         ev = Event()
         ev.idx = e
         ev.name = f"ev{e}"
-        ev.domain = "time" if domain_mix == 0 else "frf" if domain_mix == 1 else ["time", "frf"][ch.draw(2, "domain")]
+        ev.domain = "time" if domain_mix == 0 else "frf" if domain_mix == 1 else "psd" if domain_mix == 3 else ["time", "frf", "psd"][ch.draw(3, "domain")]
         ev.cfg = "B" if two_cfg and e > 0 and ch.flip(1, 2, "useB") else "A"
         ev.cats = cfgs[ev.cfg]
         ev.DR = DRs[ev.cfg]
@@ -627,7 +711,30 @@ def scenario_campaign(ch, tr, st):
         ev.done = []  # list of (j, casename)
         ev.h = h
         ev.xfixed = None
+        ev.peak_factor = 3.0
+        ev.resp_time = None
+        if ev.domain == "psd":
+            ev.peak_factor = [3.0, 1.0, 4.5][ch.draw(3, "peak_factor")]
+            ev.resp_time = [None, 60.0][ch.draw(2, "resp_time")]
+            ev.use_apply_uf = ch.flip(1, 2, "use_apply_uf")
+            ev.incrb = ["dva", "va", "a", ""][ch.draw(4, "incrb")]
+            ev.rf_disp_only = ch.flip(1, 3, "rf_disp_only")
+            ev.clock_jumps = ch.flip(1, 2, "clock_jumps")
+            ev.fs_kind = ch.weighted([3, 1], "fs_kind")
+            rfidx_ = None if mod.rfmodes is None else (np.flatnonzero(mod.rfmodes) if mod.rfmodes.dtype == bool else mod.rfmodes)
+
+            def mkfs(mats, _k=ev.fs_kind, _rf=rfidx_):
+                m_, b_, k_ = mats
+                rb_ = list(range(mod.nrb))
+                if _k == 0:
+                    return M.ode.SolveUnc(m_, b_, k_, rb=rb_, rf=_rf)
+                return M.ode.FreqDirect(m_, b_, k_, rb=rb_, rf=_rf)
+
+            with _Sut("ode solver construction (psd event)"):
+                ev.fs = mkfs((mod.m, mod.b, mod.k))
+            ev.fs_ref = mkfs(copy.deepcopy((mod.m, mod.b, mod.k)))
         ev.srsfrq_for = lambda cs, _f=srsfrq: _f[: cs.nfrq]
+        ev.srs_all = srsfrq
         ev.R = {}  # casename -> {cat: response}
         ev.x = {}
         ev.dosrs = True
@@ -739,7 +846,84 @@ def _draw_sol(ch, rng, mod, ev, h, nan_on, ties_on):
     return sol, x, quant, nanned
 
 
+class FakeClock:
+    """time.time replacement that jumps forwards and backwards (seeded)."""
+
+    JUMPS = [1e-3, 5.0, -3.0, 1e6, -1e6, 0.0]
+
+    def __init__(self, ch, st):
+        self.t = 1.7e9
+        self.ch = ch
+        self.st = st
+
+    def __call__(self):
+        jmp = self.JUMPS[self.ch.draw(len(self.JUMPS), "clock")]
+        if jmp < 0:
+            self.st.fault("clock_jump_backwards")
+        elif jmp > 1:
+            self.st.fault("clock_jump_forwards")
+        self.t += jmp
+        return self.t
+
+
+def op_recover_psd(M, ch, tr, st, rng, mod, ev):
+    k = len(ev.done)
+    j = ev.jorder[k]
+    case = f"{ev.name}c{k}"
+    if ev.xfixed is None:
+        lo = 0.4 * float(ev.srs_all[0])
+        hi = 1.6 * float(ev.srs_all[-1])
+        nf = 6 + ch.draw(14, "nf")
+        f = np.linspace(lo, hi, nf) * (1 + 0.01 * rng.uniform(-1, 1, nf))
+        ev.xfixed = np.sort(f)
+    f = ev.xfixed
+    nf = len(f)
+    flat = ch.flip(1, 3, "flat_psd")
+    forcepsd = np.ones((NPG, nf)) * rng.uniform(0.2, 2.0, (NPG, 1)) if flat else rng.uniform(0.1, 2.0, (NPG, nf))
+    t_frc = rng.standard_normal((mod.n, NPG))
+    kw = dict(incrb=ev.incrb, rf_disp_only=ev.rf_disp_only)
+    nas = {"nrb": mod.nrb}
+    verbose = ch.flip(1, 4, "verbose")
+    import time as _t
+
+    orig = _t.time
+    if ev.clock_jumps:
+        _t.time = FakeClock(ch, st)
+    try:
+        with _Sut("DR_Results.solvepsd"), _quiet():
+            ev.res.solvepsd(nas, case, ev.DR, ev.fs, forcepsd.copy(), t_frc.copy(), f.copy(), use_apply_uf=ev.use_apply_uf, verbose=verbose, **kw)
+    finally:
+        _t.time = orig
+    with _Sut("DR_Results.psd_data_recovery"), _quiet():
+        ev.res.psd_data_recovery(case, ev.DR, ev.n, j, dosrs=True, peak_factor=ev.peak_factor, resp_time=ev.resp_time)
+    # model
+    ufs = list(dict.fromkeys(c.uf for c in ev.cats))
+    rfidx = None if mod.rfmodes is None else (np.flatnonzero(mod.rfmodes) if mod.rfmodes.dtype == bool else mod.rfmodes)
+    P = {cs.name: 0.0 for cs in ev.cats}
+    unit = np.ones(nf)
+    for i in range(NPG):
+        sol = ev.fs_ref.fsolve(t_frc[:, [i]] * unit, f, **kw)
+        pg = np.zeros((NPG, nf))
+        pg[i] = 1.0
+        sol.pg = pg
+        if ev.use_apply_uf:
+            refsol = {u: ref_apply_uf(sol, u, mod.m, mod.b, mod.k, mod.nrb, rfidx) for u in ufs}
+        else:
+            refsol = {u: ref_frf_apply_uf(sol, u, mod.nrb) for u in ufs}
+        for cs in ev.cats:
+            resp = cs.fn(cs.V, refsol[cs.uf])
+            P[cs.name] = P[cs.name] + forcepsd[i] * np.abs(resp) ** 2
+    ev.R[case] = P
+    ev.x[case] = f
+    ev.done.append((j, case))
+    st.fault("psd_domain")
+    tr.shape("recover", ev.idx, j, "psd", nf, ev.use_apply_uf, ev.incrb, ev.clock_jumps)
+    tr.ev("psdin", forcepsd, t_frc)
+
+
 def op_recover(M, ch, tr, st, rng, mod, ev, h, nan_on, ties_on):
+    if ev.domain == "psd":
+        return op_recover_psd(M, ch, tr, st, rng, mod, ev)
     k = len(ev.done)
     j = ev.jorder[k]
     case = f"{ev.name}c{k}"
@@ -793,38 +977,79 @@ def _mag(ev, R):
     return np.abs(R) if ev.domain == "frf" else R
 
 
+class CaseModel:
+    """Brute-force view of one case of one category: per-row max/min and the
+    abscissae at which they are attained."""
+
+    def __init__(self, ev, cs, case):
+        self.domain = ev.domain
+        if ev.domain == "psd":
+            P = ev.R[case][cs.name]  # response PSD, rows x freq
+            f = ev.x[case]
+            df = np.diff(f)
+            with np.errstate(all="ignore"):
+                rms = np.sqrt(((P[:, :-1] + P[:, 1:]) * df).sum(axis=1) / 2)
+                Pv = f**2 * P
+                vrms = np.sqrt(((Pv[:, :-1] + Pv[:, 1:]) * df).sum(axis=1) / 2)
+                self.af = vrms / rms
+            self.rms = rms
+            self.mx = ev.peak_factor * rms
+            self.mn = -self.mx
+            self.R = P
+        else:
+            R = _mag(ev, ev.R[case][cs.name])
+            with np.errstate(all="ignore"):
+                self.mx = np.nanmax(R, axis=1)
+                self.mn = -self.mx if ev.domain == "frf" else np.nanmin(R, axis=1)
+            self.R = R
+            self.x = ev.x[case]
+
+    def x_ok(self, i, which, gx, tol):
+        """Is gx an abscissa at which row i attains its max (which=0) / min (1)?"""
+        if self.domain == "psd":
+            a = self.af[i]
+            if np.isnan(a):
+                return bool(np.isnan(gx))
+            return bool(abs(gx - a) <= 1e-9 * max(1.0, abs(a)))
+        target = self.mx[i] if which == 0 or self.domain == "frf" else self.mn[i]
+        with np.errstate(all="ignore"):
+            ok = self.x[np.abs(self.R[i] - target) <= tol]
+        return bool(np.any(np.abs(ok - gx) <= 1e-12 * max(1.0, abs(gx))))
+
+    def x_acceptable(self, i, which, tol):
+        if self.domain == "psd":
+            return [float(self.af[i])]
+        target = self.mx[i] if which == 0 or self.domain == "frf" else self.mn[i]
+        with np.errstate(all="ignore"):
+            return [float(v) for v in self.x[np.abs(self.R[i] - target) <= tol][:5]]
+
+
 def _model_case_mm(ev, cs, case):
-    """Per-case max/min and the set of abscissae attaining them (within tol)."""
-    R = _mag(ev, ev.R[case][cs.name])
-    with np.errstate(all="ignore"):
-        mx = np.nanmax(R, axis=1)
-        mn = np.nanmin(R, axis=1)
-    if ev.domain == "frf":
-        mn = -mx
-    return R, mx, mn
+    cm = CaseModel(ev, cs, case)
+    return cm.R, cm.mx, cm.mn
 
 
 def check_event(M, st, ev, tr):
     """Invariant: the event's tables equal brute force over the cases done so far."""
     st.probe("event_checks")
     res = ev.res
+    dname = {"time": "time", "frf": "frf", "psd": "psd"}[ev.domain]
     for cs in ev.cats:
-        where = f"{ev.domain}_data_recovery:{cs.name}"
+        where = f"{dname}_data_recovery:{cs.name}"
         r = res[cs.name]
         rows = cs.rows
         if r.ext is None:
             raise Violation("missing_ext", where)
         if r.ext.shape != (rows, 2) or len(r.drminfo.labels) != rows or r.mx.shape != (rows, ev.n):
             raise Violation("table_shape", where, ext=str(r.ext.shape), mx=str(r.mx.shape), labels=len(r.drminfo.labels), rows=rows)
-        percase = {}
-        for j, case in ev.done:
-            percase[case] = _model_case_mm(ev, cs, case)
-        sc = _scale(*[p[0] for p in percase.values()])
+        percase = {case: CaseModel(ev, cs, case) for _, case in ev.done}
+        sc = _scale(*[np.concatenate((p.mx, p.mn)) for p in percase.values()])
         tol = TOL * sc
-        allmx = np.array([percase[c][1] for _, c in ev.done])
-        allmn = np.array([percase[c][2] for _, c in ev.done])
-        emx = allmx.max(axis=0)
-        emn = allmn.min(axis=0)
+        allmx = np.array([percase[c].mx for _, c in ev.done])
+        allmn = np.array([percase[c].mn for _, c in ev.done])
+        with np.errstate(all="ignore"):
+            emx = np.nanmax(allmx, axis=0)
+            emn = np.nanmin(allmn, axis=0)
         _need(_close(r.ext[:, 0], emx, TOL, sc), "ext_max_wrong", where + ".ext", done=[c for _, c in ev.done])
         _need(_close(r.ext[:, 1], emn, TOL, sc), "ext_min_wrong", where + ".ext", done=[c for _, c in ev.done])
         for i in range(rows):
@@ -832,36 +1057,32 @@ def check_event(M, st, ev, tr):
                 att = [c for (jj, c), v in zip(ev.done, allv[:, i]) if abs(v - ev_[i]) <= tol]
                 if lab[i] not in att:
                     raise Violation("case_label_wrong", f"{where}.{nm}", row=i, got=lab[i], attaining=att)
-                # abscissa: must be a point where the named case attains the extreme
-                R = percase[lab[i]][0]
-                x = ev.x[lab[i]]
+                cm = percase[lab[i]]
                 gx = r.ext_x[i, col]
-                target = ev_[i] if not (ev.domain == "frf" and col == 1) else -ev_[i]
-                with np.errstate(all="ignore"):
-                    ok_x = x[np.abs(R[i] - target) <= tol]
-                if not np.any(np.abs(ok_x - gx) <= 1e-12 * max(1.0, abs(gx))):
-                    raise Violation("abscissa_wrong", f"{where}.ext_x", row=i, col=col, got=repr(float(gx)), acceptable=[float(v) for v in ok_x[:5]], case=lab[i])
+                if not cm.x_ok(i, col, gx, tol):
+                    raise Violation("abscissa_wrong", f"{where}.ext_x", row=i, col=col, got=repr(float(gx)), acceptable=cm.x_acceptable(i, col, tol), case=lab[i])
         for j, case in ev.done:
-            R, mx, mn = percase[case]
-            x = ev.x[case]
-            _need(_close(r.mx[:, j], mx, TOL, sc), "percase_wrong", where + ".mx", j=j, case=case)
-            _need(_close(r.mn[:, j], mn, TOL, sc), "percase_wrong", where + ".mn", j=j, case=case)
+            cm = percase[case]
+            _need(_close(r.mx[:, j], cm.mx, TOL, sc), "percase_wrong", where + ".mx", j=j, case=case)
+            _need(_close(r.mn[:, j], cm.mn, TOL, sc), "percase_wrong", where + ".mn", j=j, case=case)
             if r.cases[j] != case:
                 raise Violation("case_order_wrong", where + ".cases", j=j, got=repr(r.cases[j]), expected=case)
             for i in range(rows):
-                for arr, val, nm in ((r.mx_x, mx[i], "mx_x"), (r.mn_x, mn[i] if ev.domain != "frf" else mx[i], "mn_x")):
-                    with np.errstate(all="ignore"):
-                        ok_x = x[np.abs(R[i] - val) <= tol]
+                for arr, which, nm in ((r.mx_x, 0, "mx_x"), (r.mn_x, 1, "mn_x")):
                     g = arr[i, j]
-                    if not np.any(np.abs(ok_x - g) <= 1e-12 * max(1.0, abs(g))):
-                        raise Violation("percase_abscissa_wrong", f"{where}.{nm}", row=i, j=j, got=repr(float(g)), acceptable=[float(v) for v in ok_x[:5]])
+                    if not cm.x_ok(i, which, g, tol):
+                        raise Violation("percase_abscissa_wrong", f"{where}.{nm}", row=i, j=j, got=repr(float(g)), acceptable=cm.x_acceptable(i, which, tol))
+            if ev.domain == "psd":
+                if not hasattr(r, "rms"):
+                    raise Violation("rms_missing", where + ".rms")
+                _need(_close(r.rms[:, j], cm.rms, TOL, _scale(cm.rms)), "rms_wrong", where + ".rms", j=j, case=case)
             if cs.histpv is not None:
-                name = "hist" if ev.domain == "time" else "frf"
+                name = {"time": "hist", "frf": "frf", "psd": "psd"}[ev.domain]
                 H = getattr(r, name, None)
-                if H is None:
+                if H is None or isinstance(H, dict):
                     raise Violation("hist_missing", where + "." + name)
                 exp = ev.R[case][cs.name][cs.hist_idx]
-                _need(_close(H[j], exp, TOL, sc), "hist_wrong", where + "." + name, j=j, case=case)
+                _need(_close(H[j], exp, TOL, _scale(exp)), "hist_wrong", where + "." + name, j=j, case=case)
                 xs = getattr(r, "time" if ev.domain == "time" else "freq")
                 first_case = ev.done[0][1]
                 _need(_close(xs, ev.x[first_case], 0.0, 1.0), "hist_abscissa_wrong", where + ".time/freq")
@@ -884,10 +1105,17 @@ def model_srs(M, ev, cs, case, q):
         if ev.domain == "time":
             o = {k: v for k, v in opts.items() if k in ("eqsine", "ic")}
             return fact * srs.srs(R.T, 1.0 / ev.h, frq, q, **o).T
-        o = {}
+        if ev.domain == "frf":
+            o = {}
+            if eqsine:
+                fact = fact / q
+            return fact * srs.srs_frf(R.T, ev.x[case], frq, q, **o).T
+        pf = ev.peak_factor if ev.resp_time is None else np.sqrt(2 * np.log(ev.resp_time * frq))
+        fact = fact * pf
         if eqsine:
             fact = fact / q
-        return fact * srs.srs_frf(R.T, ev.x[case], frq, q, **o).T
+        x = ev.x[case]
+        return fact * srs.vrs((x, R.T), x, q, Fn=frq, linear=True).T
 
 
 def check_srs(M, st, ev, cs, r, where):
@@ -1124,8 +1352,8 @@ def op_split_merge(M, ch, tr, st, ev):
                 # split() carries `hist` (time domain) over; it does not carry `frf`
                 # (observation recorded in DESIGN.md; C16 does not promise it), so the
                 # stored history of a piece is judged only where one is present
-                H = getattr(pc, "hist" if ev.domain == "time" else "frf", None)
-                if ev.domain == "time" and (H is None or H.shape[0] != 1):
+                H = getattr(pc, {"time": "hist", "frf": "frf", "psd": "psd"}[ev.domain], None)
+                if ev.domain in ("time", "psd") and (H is None or H.shape[0] != 1):
                     raise Violation("split_piece_wrong", where + ".hist", case=case, got=None if H is None else str(H.shape))
                 if H is not None:
                     _need(_close(H[0], ev.R[case][cs.name][cs.hist_idx], TOL, sc), "split_piece_wrong", where + ".hist", case=case)
@@ -1158,6 +1386,8 @@ def op_split_merge(M, ch, tr, st, ev):
         p.R = ev.R
         p.x = ev.x
         p.h = getattr(ev, "h", None)
+        p.peak_factor = ev.peak_factor
+        p.resp_time = ev.resp_time
         p.srsfrq_for = ev.srsfrq_for
         pseudo.append(p)
     keys = [p.name for p in pseudo]
@@ -1199,15 +1429,17 @@ def op_calc_ext(M, ch, tr, st, ev):
 
 
 def run(ch, tr, st):
-    kind = ch.weighted([6, 2, 2], "scenario")
+    kind = ch.weighted([6, 2, 2, 2], "scenario")
     with np.errstate(all="ignore"):
         if kind == 0:
             _run_campaign(ch, tr, st)
         elif kind == 1:
             scenario_extrema(ch, tr, st)
-        else:
+        elif kind == 2:
             scenario_uf(ch, tr, st)
-    st.probe("scenario_" + ["campaign", "extrema_calls", "uf_calls"][kind])
+        else:
+            scenario_external(ch, tr, st)
+    st.probe("scenario_" + ["campaign", "extrema_calls", "uf_calls", "external_maxmin"][kind])
 
 
 def _run_campaign(ch, tr, st):
@@ -1238,6 +1470,6 @@ ASSUMPTIONS = [
     "sampling of histories: a clean batch is evidence, not proof",
 ]
 EXPECTED_FAULTS = [
-    "nan_cells", "ties", "ties_quantised", "one_column_ext", "label_mismatch", "j_out_of_order", "interleaved_events", "view_drfunc",
+    "psd_domain", "clock_jump_backwards", "clock_jump_forwards", "external_maxmin", "nan_cells", "ties", "ties_quantised", "one_column_ext", "label_mismatch", "j_out_of_order", "interleaved_events", "view_drfunc",
     "cache_reuse", "cache_reuse_repeat_uf", "stale_extreme_rebuild", "shared_DR_Event", "envelope_multi_event", "split_merge", "calc_ext",
 ]
